@@ -11,7 +11,7 @@ import z3
 
 from symx import core, harness, minterp, bitsets_model
 from symx.core import _bv, tob
-from . import common
+from . import common, pertable, _mk
 
 PID = 'C08'
 NAMES = ['implies', 'subsumes', 'properly_implies', 'properly_subsumes', '__le__', '__ge__', '__lt__', '__gt__',
@@ -21,9 +21,72 @@ NAMES = ['implies', 'subsumes', 'properly_implies', 'properly_subsumes', '__le__
 def units(tier, seed):
     widths = [1, 2, 3, 6, 64, 130] if tier == 'quick' else [1, 2, 3, 4, 5, 6, 8, 16, 33, 64, 65, 130, 200]
     shapes = [(3, 3), (4, 4), (5, 5)] if tier == 'quick' else [(n, m) for n in range(1, 7) for m in range(1, 7)]
-    us = [{'name': f'predicates width {n}', 'fn': 'unit_pred', 'args': {'n': n}} for n in widths]
+    us = [{'name': f'predicates width {n}', 'fn': 'unit_pred', 'args': {'n': n, 'm': 1}} for n in widths]
     us += [{'name': f'intent side {n}x{m}', 'fn': 'unit_intent', 'args': {'n': n, 'm': m}} for n, m in shapes]
-    return us
+    us += [{'name': f'predicates on concepts {n}x{m}', 'fn': 'unit_pred_table', 'args': {'n': n, 'm': m}}
+           for n, m in shapes + [(2, 2), (6, 3), (3, 6)]]
+    us += _mk.lattice_level_units(tier, seed)
+    return _mk.order(us)
+
+
+unit_kernel = _mk.kernel_unit_for(PID)
+unit_inductive = _mk.inductive_unit_for(PID)
+
+
+def unit_table(args, prefix=(), max_depth=None):
+    return pertable.unit(PID, 'b08', args, prefix, max_depth)
+
+
+def unit_pred_table(args, prefix=(), max_depth=None):
+    """the predicates on two symbolic CONCEPTS of one symbolic table: the stub lattice carries the true infimum and
+    supremum extents of that table"""
+    n, m = args['n'], args['m']
+    harness.set_width_for(n, m)
+    harness.set_kernel_mode('contract')
+    harness.load_concepts()
+    from concepts import matrices, lattice_members as lm
+    cells = harness.cell_vars(n, m)
+    x, y = z3.BitVec('x', core.W), z3.BitVec('y', core.W)
+    objs, props = harness.names(n, m)
+
+    def case(mdl, what):
+        return {'kind': 'table:C08', 'objects': list(objs), 'properties': list(props),
+                'table': harness.table_from_model(mdl, cells), 'what': what}
+
+    def body():
+        cx = core.ctx()
+        intents, extents = matrices.Relation('Properties', 'Objects', props, objs, harness.sym_rows(cells))
+        sp = harness.Spec(cells)
+        O = extents.BitSet
+        cx.assume(sp.is_objset(x), sp.is_objset(y), sp.closed_o(x), sp.closed_o(y))
+        lat = types.SimpleNamespace()
+        inf = lm.Concept(lat, O.fromint(core.SymInt(sp.closure_o(0))), intents.BitSet.fromint(core.SymInt(sp.intent(sp.closure_o(0)))), (), ())
+        sup = lm.Concept(lat, O.supremum, intents.BitSet.fromint(core.SymInt(sp.intent(sp.full_o))), (), ())
+        lat.infimum, lat.supremum = inf, sup
+        a = lm.Concept(lat, O.fromint(core.SymInt(x)), intents.BitSet.fromint(core.SymInt(sp.intent(x))), (), ())
+        b = lm.Concept(lat, O.fromint(core.SymInt(y)), intents.BitSet.fromint(core.SymInt(sp.intent(y))), (), ())
+        out = {'cex': [], 'queries': 0}
+        spc = spec(x, y, sp.full_o)
+        for name in NAMES:
+            got = minterp.call(getattr(lm.Concept, name), a, b)
+            out['queries'] += 1
+            mdl = cx.check_fresh(tob(got) != spc[name], want_model=True)
+            if mdl is not None:
+                out['cex'].append(case(mdl, f'{name} on two concepts of one lattice'))
+        for msg, mdl in cx.failed_obligations(want_model=True):
+            out['cex'].append(case(mdl, f'obligation {msg}'))
+        mdl = cx.check_fresh(want_model=True)
+        if mdl is None:
+            out['inconclusive'] = ['vacuous']
+        elif not out['cex']:
+            out['witness'] = case(mdl, None)
+        out['sample'] = {'unit': f'predicates on concepts {n}x{m}', 'inputs': 'symbolic table, two symbolic closed extents, '
+                         'stub lattice with the true infimum/supremum', 'queries': NAMES}
+        return out
+    res = common.run_paths(common.guarded(body, case), prefix, max_depth)
+    res['bounds'] = f'all {n}x{m} tables x all pairs of concepts'
+    res['stubs'] = ['lattice -> namespace carrying the infimum and supremum concepts of the table']
+    return res
 
 
 def spec(x, y, full):
@@ -54,7 +117,8 @@ def unit_pred(args, prefix=(), max_depth=None):
         cx = core.ctx()
         full = (1 << n) - 1
         cx.assume(z3.ULE(x, full), z3.ULE(y, full))
-        lat = types.SimpleNamespace(supremum=types.SimpleNamespace(_extent=O.supremum))
+        lat = types.SimpleNamespace(supremum=types.SimpleNamespace(_extent=O.supremum),
+                                    infimum=types.SimpleNamespace(_extent=O.infimum))
         a = lm.Concept(lat, O.fromint(core.SymInt(x)), None, (), ())
         b = lm.Concept(lat, O.fromint(core.SymInt(y)), None, (), ())
         out = {'cex': [], 'queries': 0}
@@ -83,7 +147,7 @@ def unit_pred(args, prefix=(), max_depth=None):
     res = common.run_paths(body, prefix, max_depth)
     res['encoded'] = enc
     res['bounds'] = f'all pairs of subsets of {n} objects'
-    res['stubs'] = ['lattice.supremum._extent -> the full object set (stub lattice)']
+    res['stubs'] = ['lattice.supremum/infimum._extent -> the full / empty object set (stub lattice of the powerset)']
     return res
 
 
